@@ -11,6 +11,7 @@ import (
 	"errors"
 	"fmt"
 	"os"
+	"runtime"
 	"runtime/debug"
 	"strconv"
 	"strings"
@@ -218,6 +219,11 @@ func (c *c30Child) call(name string, f func() error) (err error, ok bool) {
 		c.inconclusive("call-hung:" + name)
 		b, _ := json.Marshal(c.curM)
 		_ = os.WriteFile(fmt.Sprintf("%s/hang-seed%d-case%d.json", c30ReplayDir(), kit.Seed(), c.gcase), b, 0o644)
+		if os.Getenv("VERIF_C30_HANGDUMP") != "" { // diagnosis aid: where is the call parked?
+			buf := make([]byte, 8<<20)
+			buf = buf[:runtime.Stack(buf, true)]
+			_ = os.WriteFile(fmt.Sprintf("%s/hang-seed%d-case%d.goroutines.txt", c30ReplayDir(), kit.Seed(), c.gcase), buf, 0o644)
+		}
 
 		return errors.New("hung"), false
 	}
@@ -348,15 +354,15 @@ func (p *c30Peer) capFor(kind RTPCodecType) (RTPCodecCapability, bool) {
 
 // c30Peer is a PeerConnection with its local tracks and the counters of the application-style read loops.
 type c30Peer struct {
-	pc     *PeerConnection
-	prof   *c30Profile
+	pc   *PeerConnection
+	prof *c30Profile
 	// sendCaps, when non-nil, overrides the codec of local tracks per kind (nil entry: no track of that kind)
 	sendCaps map[RTPCodecType]*RTPCodecCapability
-	tracks []*TrackLocalStaticRTP
-	seq    uint16
-	onTrk  atomic.Int64
-	rtpIn  atomic.Int64
-	rtcpIn atomic.Int64
+	tracks   []*TrackLocalStaticRTP
+	seq      uint16
+	onTrk    atomic.Int64
+	rtpIn    atomic.Int64
+	rtcpIn   atomic.Int64
 }
 
 func (c *c30Child) newPeer(o c30PCOpt) *c30Peer {
